@@ -370,6 +370,9 @@ func (g *Gen) fusionLemma(r *Rule, b *Block) {
 					}
 					ens = append(ens, cb.clauses("ensures")...)
 					for _, c := range ens {
+						if !assumableAtCallSite(c) {
+							continue
+						}
 						ce := u.specEv(s3, pos)
 						ce.old = caseEntry
 						s3.assume(ce.evSpec(c.Text).S)
@@ -377,6 +380,9 @@ func (g *Gen) fusionLemma(r *Rule, b *Block) {
 					s2 = s3
 				} else if cb != nil {
 					for _, c := range cb.clauses("ensures") {
+						if !assumableAtCallSite(c) {
+							continue
+						}
 						ce := u.specEv(s2, pos)
 						ce.old = caseEntry
 						s2.assume(ce.evSpec(c.Text).S)
@@ -650,6 +656,9 @@ func (e *Ev) lemmaCall(fn *types.Func, key string, b *Block, recv *Term, args []
 	}
 	fd := e.g().P.Funcs[key]
 	for _, c := range b.clauses("ensures") {
+		if !assumableAtCallSite(c) {
+			continue
+		}
 		ce := mk(postView, preView)
 		if fd != nil && fd.Body != nil {
 			ce.pos = fd.Body.Lbrace + 1
